@@ -86,7 +86,14 @@ int main(void)
       SVDlapack(a, u, s, vt); pr_matrix("u", u); pr_matrix("s", s); pr_matrix("vt", vt);
       reuse_mask = 0;
       { matrix *ku = dup_matrix(u), *ks = dup_matrix(s), *kv = dup_matrix(vt); junk_m(u); junk_m(s); junk_m(vt);
-        SVDlapack(a, u, s, vt); RB(0, same_m(u, ku)); RB(1, same_m(s, ks)); RB(2, same_m(vt, kv)); DelMatrix(&ku); DelMatrix(&ks); DelMatrix(&kv); }
+        SVDlapack(a, u, s, vt); RB(0, same_m(u, ku)); RB(1, same_m(s, ks)); RB(2, same_m(vt, kv));
+        /* ... outputs that held tables of other shapes, and the input object itself used as the U output or as the S output (the
+           routine copies its input first) */
+        other_m(&u, a->row + 1, 2); other_m(&s, 1, a->col + 2); other_m(&vt, a->col, 1);
+        SVDlapack(a, u, s, vt); RB(0, same_m(u, ku)); RB(1, same_m(s, ks)); RB(2, same_m(vt, kv));
+        { matrix *a2 = dup_matrix(a); SVDlapack(a2, a2, s, vt); RB(3, same_m(a2, ku) && same_m(s, ks) && same_m(vt, kv)); DelMatrix(&a2);
+          a2 = dup_matrix(a); SVDlapack(a2, u, a2, vt); RB(3, same_m(u, ku) && same_m(a2, ks) && same_m(vt, kv)); DelMatrix(&a2); }
+        DelMatrix(&ku); DelMatrix(&ks); DelMatrix(&kv); }
       pr_long("reuse_bad", reuse_mask);
       DelMatrix(&u); DelMatrix(&s); DelMatrix(&vt); DelMatrix(&a);
     }
